@@ -25,6 +25,7 @@ RULE = ("Hypothesis: property names (X- names, random RFC tokens, RFC names matc
         "property's parameter names must be subsets of the intended ones, all sentinels intact, and the property either equal "
         "to what was written or recorded in the event's error list. Non-trivial: value or a parameter value contains a "
         "delimiter/escape/line-break character; distinct by hash.")
+RULE += ' Rounds 7-8: parameter values are also typed strings (vText, vCalAddress, vUri, a str subclass) or objects with to_ical(); lower-case and other percent escapes are ordinary fragments.'
 ASSUMPTIONS = ["checks run without -O (refusal by AssertionError counts as refusal)",
                "property names BEGIN/END and the semantics-bearing parameter names VALUE/TZID/ENCODING are outside the generated domain",
                "'\"' -> \"'\" in parameter values and [v] == v are documented normalisations"]
